@@ -374,6 +374,41 @@ Proof.
     unfold Inv. rewrite Hom. auto.
 Qed.
 
+(* two readings of the invariant used by the RemoteBitrateEstimator proofs *)
+Lemma Inv_samples_le s smp l : Inv s smp (Some l) -> forall t v, In (t, v) smp -> t <= l.
+Proof.
+  unfold Inv. destruct (origin_ms s) as [om|].
+  - intros (l' & f & [= <-] & _ & _ & Hsm & _) t v Hin. apply (Hsm t v Hin).
+  - intros (_ & -> & _) t v [].
+Qed.
+
+Lemma Inv_total s smp l : Inv s smp (Some l) -> total s = tally (in_window (window_size s) l) smp.
+Proof.
+  unfold Inv. destruct (origin_ms s) as [om|].
+  - intros (l' & f & [= <-] & HR & Hol & Hsm & _).
+    destruct HR as (_ & _ & _ & _ & _ & Ht & _). rewrite Ht. unfold tally. f_equal.
+    + apply cnt_ext. intros t v Hin. destruct (Hsm t v Hin) as [H1 H2].
+      unfold in_window. destruct (Z.leb_spec om t), (Z.ltb_spec (l - window_size s) t), (Z.leb_spec t l);
+        cbn [andb]; try reflexivity; lia.
+    + apply vsum_ext. intros t v Hin. destruct (Hsm t v Hin) as [H1 H2].
+      unfold in_window. destruct (Z.leb_spec om t), (Z.ltb_spec (l - window_size s) t), (Z.leb_spec t l);
+        cbn [andb]; try reflexivity; lia.
+  - intros (_ & -> & _ & _ & Ht). rewrite Ht. reflexivity.
+Qed.
+
+Lemma cnt_zero_all P l : cnt P l = 0 -> forall t v, In (t, v) l -> P t = false.
+Proof.
+  induction l as [|[t0 v0] l IH]; cbn [cnt fst]; intros H t v Hin; [destruct Hin|].
+  pose proof (cnt_nonneg P l). destruct (P t0) eqn:E; [lia|].
+  destruct Hin as [Hin|Hin]; [injection Hin as <- <-; exact E|]. apply (IH ltac:(lia) t v Hin).
+Qed.
+
+Lemma cnt_app P a b : cnt P (a ++ b) = cnt P a + cnt P b.
+Proof. induction a as [|x a IH]; cbn [app cnt]; [lia|]. rewrite IH. lia. Qed.
+
+Lemma vsum_app P a b : vsum P (a ++ b) = vsum P a + vsum P b.
+Proof. induction a as [|x a IH]; cbn [app vsum]; [lia|]. rewrite IH. lia. Qed.
+
 (* ---------------------------------------------------------------- histories *)
 Definition op_time (o : op) : option Z :=
   match o with Add _ t => Some t | Rate t => Some t | Reset => None end.
